@@ -9,7 +9,6 @@ import (
 	"encoding/xml"
 	"fmt"
 	"io"
-	"os"
 	"path/filepath"
 	"sort"
 	"strings"
@@ -824,22 +823,21 @@ func mavenReqKey(r resolve.RequirementVersion) string {
 	return r.Name + "|" + t + "|" + c
 }
 
-func (c *pomCase) write(root string) (child, parent []byte, err error) {
-	child = renderPom(&c.Child)
-	p := filepath.Join(root, "in", pomChildPath)
-	if err = os.MkdirAll(filepath.Dir(p), 0o755); err != nil {
+func (c *pomCase) write(ws *workspace) (child, parent []byte, err error) {
+	inputs := map[string]bool{"in/" + pomChildPath: true}
+	if c.Parent != nil {
+		inputs["in/"+c.ParentPath] = true
+	}
+	if err = ws.reset(inputs); err != nil {
 		return
 	}
-	if err = os.WriteFile(p, child, 0o644); err != nil {
+	child = renderPom(&c.Child)
+	if err = ws.put("in/"+pomChildPath, child); err != nil {
 		return
 	}
 	if c.Parent != nil {
 		parent = renderPom(c.Parent)
-		pp := filepath.Join(root, "in", c.ParentPath)
-		if err = os.MkdirAll(filepath.Dir(pp), 0o755); err != nil {
-			return
-		}
-		err = os.WriteFile(pp, parent, 0o644)
+		err = ws.put("in/"+c.ParentPath, parent)
 	}
 	return
 }
@@ -856,12 +854,12 @@ func propC13Pom(c *pomCase) (ev.Outcome, error) {
 			return o, fmt.Errorf("bad case: parent path %q", c.ParentPath)
 		}
 	}
-	dir, err := c13TempDir()
+	ws, err := c13Workspace()
 	if err != nil {
 		return o, fmt.Errorf("harness: %v", err)
 	}
-	defer os.RemoveAll(dir)
-	childIn, parentIn, err := c.write(dir)
+	dir := ws.root
+	childIn, parentIn, err := c.write(ws)
 	if err != nil {
 		return o, fmt.Errorf("harness: %v", err)
 	}
@@ -987,13 +985,13 @@ func propC13Pom(c *pomCase) (ev.Outcome, error) {
 		o.Classes = append(o.Classes, "pom_write_error")
 		return o, nil
 	}
-	childOut, err := os.ReadFile(filepath.Join(outRoot, pomChildPath))
+	childOut, err := ws.output("out/" + pomChildPath)
 	if err != nil {
 		return o, fmt.Errorf("Write returned nil but the output file is missing: %v", err)
 	}
 	var parentOut []byte
 	if c.Parent != nil {
-		parentOut, err = os.ReadFile(filepath.Join(outRoot, c.ParentPath))
+		parentOut, err = ws.output("out/" + c.ParentPath)
 		if err != nil {
 			return o, fmt.Errorf("Write returned nil but the local parent was not written beside the output: %v", err)
 		}
